@@ -13,6 +13,10 @@
 EXTENDS BV, TLC
 
 Undef == <<>>
+\* poison (MLIR / LLVM): the result of a speculatable operation outside its domain (shift by >= width).  It is not undefined behaviour
+\* by itself - only using it to branch, divide, or as a loop bound is.  Encoded as a tuple longer than any limb tuple.
+Poison == [i \in 1 .. 20 |-> 0] \o <<>>
+IsPoison(v) == Len(v) = 20
 Put(env, vids, vals) == [v \in DOMAIN env |-> IF \E i \in DOMAIN vids : vids[i] = v
                                              THEN vals[CHOOSE i \in DOMAIN vids : vids[i] = v] ELSE env[v]]
 Get(env, vids) == [i \in DOMAIN vids |-> env[vids[i]]]
@@ -43,7 +47,7 @@ ArithEval(o, x) ==      \* o: the op record, x: operand values
                           [] n = "arith.floordivsi" -> FloorDivS(a, b, W) [] n = "arith.ceildivsi" -> CeilDivS(a, b, W)>>>>
     [] n \in {"arith.shli", "arith.shrui", "arith.shrsi"} ->
          LET k == ShAmt(b, W) IN
-         IF k >= W THEN <<FALSE, <<>>>>
+         IF k >= W THEN <<TRUE, <<Poison>>>>
          ELSE <<TRUE, <<CASE n = "arith.shli" -> Shl(a, k, W) [] n = "arith.shrui" -> LShr(a, k, W) [] n = "arith.shrsi" -> AShr(a, k, W)>>>>
     [] n = "arith.minsi" -> <<TRUE, <<MinS(a, b, W)>>>>
     [] n = "arith.maxsi" -> <<TRUE, <<MaxS(a, b, W)>>>>
@@ -100,13 +104,14 @@ IsArith(n) == n \in {"arith.constant", "arith.addi", "arith.subi", "arith.muli",
   "arith.shrsi", "arith.minsi", "arith.maxsi", "arith.minui", "arith.maxui", "arith.cmpi", "arith.select", "arith.extui", "arith.extsi",
   "arith.trunci", "arith.index_cast", "arith.index_castui", "arith.addui_extended", "arith.mului_extended", "arith.mulsi_extended"}
 
+DivLike == {"arith.divui", "arith.remui", "arith.ceildivui", "arith.divsi", "arith.remsi", "arith.floordivsi", "arith.ceildivsi"}
 \* ---------------------------------------------------------------- machine
 NewFrame(prog, f, argvals) ==
   LET F == prog.funcs[f] IN
   [f |-> f, b |-> 1, pc |-> 1, conts |-> <<>>,
    env |-> Put([v \in 1 .. F.nvals |-> Undef], F.blocks[1].args, argvals)]
 InitMachine(prog, f, argvals, fuel) ==
-  [stack |-> <<NewFrame(prog, f, argvals)>>, status |-> "run", rets |-> <<>>, eff |-> <<>>, fuel |-> fuel, heap |-> <<>>]
+  [stack |-> <<NewFrame(prog, f, argvals)>>, status |-> "run", rets |-> <<>>, eff |-> <<>>, fuel |-> fuel, heap |-> <<>>, pz |-> 0]
 
 Top(m) == m.stack[Len(m.stack)]
 SetTop(m, fr) == [m EXCEPT !.stack = [@ EXCEPT ![Len(m.stack)] = fr]]
@@ -130,10 +135,19 @@ Step(prog, m) ==
       n == o.op
       x == Get(fr.env, o.a)
   IN IF \E i \in DOMAIN x : x[i] = Undef THEN Halt(m1, "stuck")
+  ELSE IF IsArith(n) /\ (\E i \in DOMAIN x : IsPoison(x[i])) THEN
+       \* poison propagates through speculatable ops; a division by / of poison may divide by zero: undefined behaviour;
+       \* select passes on the chosen operand (a poison condition poisons the result)
+       IF n \in DivLike THEN Halt(m1, "ub")
+       ELSE IF n = "arith.select" /\ ~IsPoison(x[1])
+            THEN SetTop(m1, [fr EXCEPT !.env = Put(fr.env, o.r, <<IF Truthy(x[1]) THEN x[2] ELSE x[3]>>), !.pc = fr.pc + 1])
+            ELSE SetTop(m1, [fr EXCEPT !.env = Put(fr.env, o.r, [i \in DOMAIN o.r |-> Poison]), !.pc = fr.pc + 1])
   ELSE IF IsArith(n) THEN
        LET res == ArithEval(o, x) IN
        IF ~res[1] THEN Halt(m1, "ub")
-       ELSE SetTop(m1, [fr EXCEPT !.env = Put(fr.env, o.r, res[2]), !.pc = fr.pc + 1])
+       ELSE SetTop(IF \E k \in DOMAIN res[2] : IsPoison(res[2][k]) THEN [m1 EXCEPT !.pz = 1] ELSE m1,      \* pz: poison was created in this run
+                   [fr EXCEPT !.env = Put(fr.env, o.r, res[2]), !.pc = fr.pc + 1])
+  ELSE IF IsLLVM(n) /\ (\E i \in DOMAIN x : IsPoison(x[i])) THEN Halt(m1, "ub")
   ELSE IF IsLLVM(n) THEN
        LET res == LLVMEval(o, x) IN
        IF ~res[1] THEN Halt(m1, "ub")       \* poison / immediate UB: no obligation on the compiled code
@@ -148,6 +162,7 @@ Step(prog, m) ==
        ELSE IF m.heap[x[1][2]] = Undef \/ Len(m.heap[x[1][2]]) # NL(o.w) THEN Halt(m1, "ub")     \* uninitialised / differently typed read
        ELSE SetTop(m1, [fr EXCEPT !.env = Put(fr.env, o.r, <<m.heap[x[1][2]]>>), !.pc = fr.pc + 1])
   ELSE IF n = "cf.br" THEN SetTop(m1, Enter(prog, fr, o.succ[1].b, Get(fr.env, o.succ[1].args)))
+  ELSE IF n \in {"cf.cond_br", "scf.if", "scf.for", "scf.condition"} /\ (\E i \in 1 .. (IF n = "scf.for" THEN 3 ELSE 1) : IsPoison(x[i])) THEN Halt(m1, "ub")
   ELSE IF n = "cf.cond_br" THEN
        LET s == IF Truthy(x[1]) THEN o.succ[1] ELSE o.succ[2] IN SetTop(m1, Enter(prog, fr, s.b, Get(fr.env, s.args)))
   ELSE IF n = "func.return" THEN
@@ -202,11 +217,13 @@ Step(prog, m) ==
 (* Agreement of a target run B with a source run A on the same input (translation validation):
    if the source completes, the target must complete with the same results and the same effects in the
    same order.  A source that hits undefined behaviour or runs out of fuel imposes nothing. *)
+\* target values refine source values: equal, or the source value is poison (then anything is allowed)
+RefinesVals(a, b) == Len(a) = Len(b) /\ \A k \in DOMAIN a : IsPoison(a[k]) \/ a[k] = b[k]
 AgreeClause(mA, mB) ==
   IF mA.status # "done" THEN "ok"
   ELSE IF mB.status = "fuel" THEN "ok"      \* inconclusive: the checker's own budget
   ELSE IF mB.status # "done" THEN "TargetCompletesWhenSourceDoes"
-  ELSE IF mB.rets # mA.rets THEN "SameResults"
-  ELSE IF mB.eff # mA.eff THEN "SameEffectsInOrder"
+  ELSE IF ~RefinesVals(mA.rets, mB.rets) THEN "SameResults"
+  ELSE IF Len(mB.eff) # Len(mA.eff) \/ \E k \in DOMAIN mA.eff : mA.eff[k][1] # mB.eff[k][1] \/ ~RefinesVals(mA.eff[k][2], mB.eff[k][2]) THEN "SameEffectsInOrder"
   ELSE "ok"
 =============================================================================
